@@ -15,6 +15,15 @@ def SMap.get? (m : SMap) (k : String) : Option String :=
   | [] => none
   | (k', v) :: rest => if k' = k then some v else SMap.get? rest k
 
+/-- `m[k] = v` on the key-sorted representation -/
+def SMap.set (m : SMap) (k v : String) : SMap :=
+  match m with
+  | [] => [(k, v)]
+  | (k', v') :: rest =>
+    if k < k' then (k, v) :: (k', v') :: rest
+    else if k = k' then (k, v) :: rest
+    else (k', v') :: SMap.set rest k v
+
 /-- `message.Mesg` (stored as JSON in `callbacks.mesg` / `tasks.mesg`). -/
 structure Mesg where
   type : String
